@@ -40,7 +40,8 @@ func Encode(n datamodel.Node, w io.Writer) error {
 	// Shell out directly to generic inspection path.
 	//  (There's not really any fastpaths of note for json.)
 	// Write another function if you need to tune encoding options about whitespace.
-	return dagjson.Marshal(n, rfmtjson.NewEncoder(w, rfmtjson.EncodeOptions{
+	ew := &errWriter{w: w}
+	err := dagjson.Marshal(n, rfmtjson.NewEncoder(ew, rfmtjson.EncodeOptions{
 		Line:   []byte{'\n'},
 		Indent: []byte{'\t'},
 	}), dagjson.EncodeOptions{
@@ -48,4 +49,28 @@ func Encode(n datamodel.Node, w io.Writer) error {
 		EncodeBytes: false,
 		MapSortMode: codec.MapSortMode_None,
 	})
+	if err != nil {
+		return err
+	}
+	return ew.err
+}
+
+// errWriter remembers the first error of the underlying writer.
+// The refmt JSON encoder does not report write errors, so without this
+// an encode onto a failing writer would appear to succeed.
+type errWriter struct {
+	w   io.Writer
+	err error
+}
+
+func (ew *errWriter) Write(p []byte) (int, error) {
+	if ew.err != nil {
+		return 0, ew.err
+	}
+	n, err := ew.w.Write(p)
+	if err == nil && n < len(p) {
+		err = io.ErrShortWrite
+	}
+	ew.err = err
+	return n, err
 }
